@@ -135,12 +135,14 @@ class Sched(object):
 
     # ---- enabledness ----------------------------------------------------------------------------
     @staticmethod
-    def enabled(op):
+    def enabled(op, ts=None):
         kind, obj = op
         if kind == "acquire":
             return obj.holder is None
         if kind == "wait":
-            return obj.flag
+            # threading.Event.wait returns once a set() has notified the waiter, even if the flag was cleared
+            # again before the waiter ran (Condition semantics)
+            return obj.flag or (ts is not None and ts.tid in obj.released)
         if kind == "join":
             return obj.ts is None or obj.ts.done
         if kind == "spawning":
@@ -158,7 +160,7 @@ class Sched(object):
                 live = [t for t in self.order if not t.done]
                 if not live:
                     return "done"
-                en = [t for t in live if t.pending is not None and self.enabled(t.pending)]
+                en = [t for t in live if t.pending is not None and self.enabled(t.pending, t)]
                 if not en:
                     self.deadlock = [(t.name, _opname(t.pending)) for t in live]
                     self._abort_locked()
@@ -242,6 +244,7 @@ def make_threading(sched_ref):
             self.flag = False
             self.label = "event?"
             self._sets = 0
+            self.released = set()       # tids of waiters notified by a set() while they were parked in wait()
             self.s = sched_ref[0]
 
         def _ann(self, kind):
@@ -253,6 +256,10 @@ def make_threading(sched_ref):
             if self._sets > 1:           # the first set() is the constructor's, before the object is shared
                 self._ann("set")
             self.flag = True
+            if sched_ref[0] is self.s:
+                for t in self.s.order:
+                    if t.pending is not None and t.pending[0] == "wait" and t.pending[1] is self:
+                        self.released.add(t.tid)
 
         def clear(self):
             self._ann("clear")
@@ -266,7 +273,10 @@ def make_threading(sched_ref):
 
         def wait(self, timeout=None):
             self._ann("wait")
-            return self.flag
+            me = self.s.me() if sched_ref[0] is self.s else None
+            if me is not None:
+                self.released.discard(me.tid)
+            return True if me is not None else self.flag
 
     class Thread(object):
         def __init__(self, *a, **k):
